@@ -8,7 +8,7 @@ ops
 * `validate \t <tag> \t <wire project>`: model answer `ok` | `diag k1 k2 …` (sorted, de-duplicated
   kinds of `Validate.validate`).  Oracle (on the IMPLEMENTATION's answer): tag `valid` ⇒ `ok`;
   tag `fault:<kind>` / `defect:<name>` with the program being ill-formed ⇒ at least one diagnostic.
-* `arrange \t <T> \t <wire P> \t <wire T(P)>`: see `Driver.Merge.arrangeLine`.
+* `arrange \t <T> \t <wire P> \t <wire T(P)>`: see the section on C15 below.
 -/
 import IsoVerif.Model.Core.Wire
 import IsoVerif.Model.Core.Validate
@@ -62,16 +62,17 @@ def validateLine (args impl : List String) : String :=
 
 Request `arrange \t <T> \t <wire P> \t <wire T(P)>`; implementation's answer
 `st=<P>/<T(P)>` then per entrypoint of P (sorted by `Type.field`)
-`ep=<Type.field> P=<map> T=<map> ord=<same|diff:class> ops=<same|diff>`
-where `<map>` is the merged map of the entrypoint in canonical text (entries sorted by their text; see
-harness/merge/src/dump.rs), `ord` says whether the two compiles iterate over equal maps in the same order
-(an observation of the implementation's interning / source-location order, which the model does not
-have: it is ECHOED), `ops` whether `query_text.ts` and `normalization_ast.ts` are byte-identical.
-The model computes `st` from `Validate.validate`, the maps from `Merge.entrypointMap`, and predicts
-`ops = same` iff its two maps have the same text and `ord = same`.
-Oracle, on the implementation's answer alone: T(P) compiles and every `ops` is `same`. -/
+`ep=<Type.field> P=<map> T=<map> ops=<same|diff>`
+where `<map>` is the merged map the entrypoint's printers were given, in the map's own ITERATION order, in
+the text form of harness/merge/src/dump.rs, and `ops` says whether `query_text.ts` and
+`normalization_ast.ts` are byte-identical in the two compiles.
+The model computes `st` from `Validate.validate`, the maps from `Merge.entrypointMap` printed in the order
+of `Merge.cmpKey` (the derived `Ord` of `NormalizationKey`, source locations included), and predicts
+`ops = same` iff its two texts are equal.
+Oracle, on the implementation's answer alone: T(P) compiles and every `ops` is `same`; a failure is
+classified from the implementation's two maps (`maps-differ:…` when they differ as sets of entries,
+`order:…` when only the order differs). -/
 
-open IsoVerif.Core.Merge in
 def hx (s : String) : String := if s.isEmpty then "-" else Wire.encStr s
 
 mutual
@@ -110,9 +111,19 @@ def insertKeep (x : String) : List String → List String
 
 def sortKeep (xs : List String) : List String := xs.foldl (fun acc x => insertKeep x acc) []
 
-/-- canonical text of the nested map below the nodes of `es` (paths relative to the current level) -/
-partial def mapText (es : List (List Merge.KeyK × Merge.Payload)) : String :=
+/-- stable insertion sort by a comparison -/
+def insertBy {α : Type} (cmp : α → α → Ordering) (x : α) : List α → List α
+  | [] => [x]
+  | y :: ys => if cmp x y == .lt then x :: y :: ys else y :: insertBy cmp x ys
+
+def sortBy {α : Type} (cmp : α → α → Ordering) (xs : List α) : List α :=
+  xs.foldl (fun acc x => insertBy cmp x acc) []
+
+/-- text of the nested map below the nodes of `es` (paths relative to the current level), entries in the
+implementation's iteration order -/
+partial def mapText (p : Project) (es : List (List Merge.KeyK × Merge.Payload)) : String :=
   let nodes := es.filter fun e => e.1.length == 1
+  let nodes := sortBy (fun a b => Merge.cmpKey p (a.1.headD .panic) (b.1.headD .panic)) nodes
   let texts := nodes.map fun e =>
     match e.1 with
     | [k] =>
@@ -123,35 +134,29 @@ partial def mapText (es : List (List Merge.KeyK × Merge.Payload)) : String :=
       let kt := keyText k
       match e.2 with
       | .scalar f n a => "s(" ++ kt ++ ";" ++ bit f ++ ";" ++ hx n ++ ";" ++ argsText a ++ ")"
-      | .linked f n a c => "l(" ++ kt ++ ";" ++ bit f ++ ";" ++ hx n ++ ";" ++ argsText a ++ ";" ++ concText c ++ ";" ++ mapText kids ++ ")"
-      | .clientObj f n a c => "c(" ++ kt ++ ";" ++ bit f ++ ";" ++ hx n ++ ";" ++ argsText a ++ ";" ++ concText c ++ ";" ++ mapText kids ++ ")"
-      | .frag t => "f(" ++ kt ++ ";" ++ hx t ++ ";" ++ mapText kids ++ ")"
+      | .linked f n a c => "l(" ++ kt ++ ";" ++ bit f ++ ";" ++ hx n ++ ";" ++ argsText a ++ ";" ++ concText c ++ ";" ++ mapText p kids ++ ")"
+      | .clientObj f n a c => "c(" ++ kt ++ ";" ++ bit f ++ ";" ++ hx n ++ ";" ++ argsText a ++ ";" ++ concText c ++ ";" ++ mapText p kids ++ ")"
+      | .frag t => "f(" ++ kt ++ ";" ++ hx t ++ ";" ++ mapText p kids ++ ")"
       | .panic msg => "panic(" ++ msg ++ ")"
     | _ => ""
-  "[" ++ ",".intercalate (sortKeep texts) ++ "]"
+  "[" ++ ",".intercalate texts ++ "]"
 
-def mergedText (m : Merge.MergedMap) : String :=
+def mergedText (p : Project) (m : Merge.MergedMap) : String :=
   match Merge.panicOf m with
   | some msg => "panic:" ++ msg.replace " " "_"
-  | none => mapText (m.map fun e => (e.2.keys, e.2.payload))
+  | none => mapText p (m.map fun e => (e.2.keys, e.2.payload))
 
 def epMapText (p : Project) (ty name : String) : String :=
   match Merge.entrypointMap p ty name with
   | none => "none"
-  | some m => mergedText m
+  | some m => mergedText p m
 
 def statusOf (p : Project) : String :=
   let ks := (Validate.validate p).map Validate.Kind.name
   if ks.isEmpty then (if Merge.projectCoherent p then "ok" else "incoherent")
   else if ks.contains "panic" then "panic" else "diag"
 
-/-- value of the first field `key=…` after position of `ep=<name>` in the implementation's answer -/
-def implField (impl : List String) (ep key : String) : Option String :=
-  let after := (impl.dropWhile (· != "ep=" ++ ep)).drop 1
-  let mine := after.takeWhile (fun f => !f.startsWith "ep=")
-  (mine.find? (·.startsWith (key ++ "="))).map fun f => (f.drop (key.length + 1)).toString
-
-def arrangeAnswer (p q : Project) (impl : List String) : List String :=
+def arrangeAnswer (p q : Project) : List String :=
   let sp := statusOf p
   let sq := statusOf q
   let st := "st=" ++ sp ++ "/" ++ sq
@@ -163,38 +168,122 @@ def arrangeAnswer (p q : Project) (impl : List String) : List String :=
     | none => []
     | some e =>
       let tp := epMapText p e.parent e.name
-      if !qeps.contains ep then ["ep=" ++ ep, "P=" ++ tp, "T=missing", "ord=same", "ops=diff"] else
+      if !qeps.contains ep then ["ep=" ++ ep, "P=" ++ tp, "T=missing", "ops=diff"] else
       let tq := epMapText q e.parent e.name
-      let ord := (implField impl ep "ord").getD "same"
-      ["ep=" ++ ep, "P=" ++ tp, "T=" ++ tq, "ord=" ++ ord,
-       "ops=" ++ (if tp == tq && ord == "same" then "same" else "diff")]
+      ["ep=" ++ ep, "P=" ++ tp, "T=" ++ tq, "ops=" ++ (if tp == tq then "same" else "diff")]
 
-/-- oracle of C15 on the implementation's answer: classes are narrow on purpose -/
+/-! #### classification of a failure, from the implementation's two map texts -/
+
+/-- split on the commas at bracket depth 0 -/
+def splitTop (cs : List Char) : List (List Char) :=
+  let rec go : List Char → Nat → List Char → List (List Char) → List (List Char)
+    | [], _, cur, acc => (cur.reverse :: acc).reverse
+    | c :: rest, d, cur, acc =>
+      if c == ',' && d == 0 then go rest d [] (cur.reverse :: acc)
+      else if c == '(' || c == '[' || c == '{' then go rest (d + 1) (c :: cur) acc
+      else if c == ')' || c == ']' || c == '}' then go rest (d - 1) (c :: cur) acc
+      else go rest d (c :: cur) acc
+  go cs 0 [] []
+
+/-- the entries of a map text `[e1,e2,…]` -/
+def entriesOf (m : String) : List String :=
+  let cs := m.toList
+  match cs with
+  | '[' :: rest =>
+    let body := rest.dropLast
+    if body.isEmpty then [] else (splitTop body).map String.ofList
+  | _ => []
+
+/-- `(text before the nested map, nested map)` of an entry `l(…;[…])`, `c(…)`, `f(…)`; `none` for `s(…)` -/
+def nestedOf (e : String) : Option (String × String) :=
+  if e.startsWith "s(" || e.startsWith "panic(" then none else
+  -- the nested map is the last `;`-separated field at depth 1
+  let cs := e.toList
+  let rec go : List Char → Nat → Nat → Nat → Nat
+    | [], _, _, last => last
+    | c :: rest, i, d, last =>
+      if c == ';' && d == 1 then go rest (i + 1) d (i + 1)
+      else if c == '(' || c == '[' || c == '{' then go rest (i + 1) (d + 1) last
+      else if c == ')' || c == ']' || c == '}' then go rest (i + 1) (d - 1) last
+      else go rest (i + 1) d last
+  let at_ := go cs 0 0 0
+  some (String.ofList (cs.take at_), String.ofList ((cs.drop at_).dropLast))
+
+partial def canonMap (m : String) : String :=
+  "[" ++ ",".intercalate (sortKeep ((entriesOf m).map canonEntry)) ++ "]"
+where
+  canonEntry (e : String) : String :=
+    match nestedOf e with
+    | none => e
+    | some (pre, nested) => pre ++ canonMap nested ++ ")"
+
+/-- the key part of an entry text: between the first `(` and the first `;` at depth 1 -/
+def keyOf (e : String) : String :=
+  let cs := (e.toList.dropWhile (· != '(')).drop 1
+  let rec go : List Char → Nat → List Char → List Char
+    | [], _, acc => acc.reverse
+    | c :: rest, d, acc =>
+      if c == ';' && d == 0 then acc.reverse
+      else if c == '(' || c == '[' || c == '{' then go rest (d + 1) (c :: acc)
+      else if c == ')' || c == ']' || c == '}' then go rest (d - 1) (c :: acc)
+      else go rest d (c :: acc)
+  String.ofList (go cs 0 [])
+
+def hasSub (s sub : String) : Bool := (s.splitOn sub).length > 1
+
+/-- two keys that swapped places: what distinguishes them -/
+def keyDifference (a b : String) : String :=
+  let headOf := fun (k : String) => (k.splitOn "{").headD ""
+  if headOf a != headOf b then "field-name" else
+  let kinds := fun (k : String) =>
+    (if hasSub k "=\"" then ["string"] else []) ++ (if hasSub k "=$" then ["variable"] else [])
+      ++ (if hasSub k "=o{" then ["object"] else []) ++ (if hasSub k "=l[" then ["list"] else [])
+      ++ (if hasSub k "=e." then ["enum"] else [])
+      ++ (if hasSub k "=i" || hasSub k "=b" || hasSub k "=n" || hasSub k "=f." then ["literal"] else [])
+  let ks := sortDedup (kinds a ++ kinds b)
+  let composite := ks.contains "object" || ks.contains "list"
+  if a == b then "same-text:" ++ "+".intercalate ks
+  else if composite then "composite-args:" ++ "+".intercalate ks
+  else "plain-args:" ++ "+".intercalate ks
+
+/-- first place (depth first) where two maps with the same canonical text iterate differently -/
+partial def orderClass (a b : String) : Option String :=
+  let ea := entriesOf a
+  let eb := entriesOf b
+  let ca := ea.map (fun e => (canonMap ("[" ++ e ++ "]")))
+  let cb := eb.map (fun e => (canonMap ("[" ++ e ++ "]")))
+  if ca != cb then
+    match (List.zip (List.zip ea eb) (List.zip ca cb)).find? (fun x => x.2.1 != x.2.2) with
+    | some x => some (keyDifference (keyOf x.1.1) (keyOf x.1.2))
+    | none => some "length"
+  else
+    (List.zip ea eb).findSome? fun x =>
+      match nestedOf x.1, nestedOf x.2 with
+      | some (_, na), some (_, nb) => orderClass na nb
+      | _, _ => none
+
+/-- oracle of C15 on the implementation's answer -/
 def arrangeVerdict (t : String) (impl : List String) : String :=
   match impl.head? with
   | none => "bad:no-answer"
   | some st =>
     if st == "st=ok/ok" then
-      -- first entrypoint whose operations differ
-      let rec go : List String → Option String → Option String → Option String → String
-        | [], _, _, _ => "ok"
-        | f :: rest, pm, tm, ord =>
-          if f.startsWith "ep=" then go rest none none none
-          else if f.startsWith "P=" then go rest (some f) tm ord
-          else if f.startsWith "T=" then go rest pm (some f) ord
-          else if f.startsWith "ord=" then go rest pm tm (some f)
+      let rec go : List String → Option String → Option String → String
+        | [], _, _ => "ok"
+        | f :: rest, pm, tm =>
+          if f.startsWith "ep=" then go rest none none
+          else if f.startsWith "P=" then go rest (some (f.drop 2).toString) tm
+          else if f.startsWith "T=" then go rest pm (some (f.drop 2).toString)
           else if f == "ops=diff" then
-            let sameMaps := match pm, tm with
-              | some a, some b => (a.drop 2).toString == (b.drop 2).toString
-              | _, _ => false
-            if sameMaps then "bad:order:" ++ ((ord.getD "ord=diff:?").drop 9).toString
-            else
-              let composite := match tm with
-                | some b => (b.splitOn "=o{").length > 1 || (b.splitOn "=l[").length > 1
-                | none => false
-              "bad:maps-differ:" ++ t ++ (if composite then ":composite-arg" else ":other")
-          else go rest pm tm ord
-      go (impl.drop 1) none none none
+            match pm, tm with
+            | some a, some b =>
+              if canonMap a == canonMap b then "bad:order:" ++ (orderClass a b).getD "none"
+              else
+                let composite := hasSub b "=o{" || hasSub b "=l["
+                "bad:maps-differ:" ++ t ++ (if composite then ":composite-arg" else ":other")
+            | _, _ => "bad:maps-differ:" ++ t ++ ":missing"
+          else go rest pm tm
+      go (impl.drop 1) none none
     else if st.startsWith "st=ok/" then "bad:rearranged-rejected:" ++ t ++ ":" ++ (st.drop 6).toString
     else "ok"   -- P itself is not accepted: nothing to compare
 
@@ -202,7 +291,7 @@ def arrangeLine (args impl : List String) : String :=
   match args with
   | [t, wp, wq] =>
     match Wire.parseProject wp, Wire.parseProject wq with
-    | some p, some q => " ".intercalate (arrangeAnswer p q impl) ++ "\t" ++ arrangeVerdict t impl
+    | some p, some q => " ".intercalate (arrangeAnswer p q) ++ "\t" ++ arrangeVerdict t impl
     | _, _ => "bad-wire\tok"
   | _ => "bad-op\tok"
 
